@@ -39,8 +39,12 @@ func lemmaJobs(w *World, pc *PropConfig, workDir string) ([]lemmaJob, []string) 
 		st := newState()
 		qn := 0
 		var cons []string
+		h.emit = func(t *Term) { cons = append(cons, t.S) }
 		pkg := w.pkgs[lm.Pkg]
 		for _, ax := range w.axioms {
+			if strings.HasPrefix(ax.Pkg, "go.universe.tf/metallb") && ax.Pkg != lm.Pkg {
+				continue
+			}
 			env := &SpecEnv{h: h, w: w, pkg: w.pkgs[ax.Pkg], vars: map[string]SV{}, st: st, old: st, qn: &qn}
 			if env.pkg == nil {
 				env.pkg = pkg
